@@ -167,6 +167,34 @@ func main() {
 			}
 		}
 		fmt.Println(s.Analysed, time.Since(t0))
+	case "lg":
+		rules.LA(rc)
+		for _, pr := range []string{"C04", "C08", "C09", "C14", "C16", "C20", "C10"} {
+			s.Config = pr
+			rules.LGuards(rc, pr)
+		}
+		for _, o := range s.Obs {
+			fmt.Println(o.Config, o.V, o.Rule, o.Key, "::", o.Detail)
+		}
+	case "f":
+		rules.F1(rc)
+		rules.F2(rc)
+		for _, o := range s.Obs {
+			fmt.Println(o.V, o.Rule, o.Key, "::", o.Detail)
+		}
+	case "e2":
+		rules.E2(rc, nil, 0)
+		for _, o := range s.Obs {
+			if !o.Trivial {
+				fmt.Println(o.V, o.Rule, o.Key, "::", o.Detail)
+			}
+		}
+		fmt.Println(len(s.Obs))
+	case "v1":
+		rules.V1(rc)
+		for _, o := range s.Obs {
+			fmt.Println(o.V, o.Rule, o.Key, "::", o.Detail)
+		}
 	case "k1w":
 		rules.K1w(rc, nil, 0)
 		for _, o := range s.Obs {
